@@ -16,7 +16,7 @@ META = {
 ALLOWED_AXIOMS = ()
 
 
-C04M_VOS = ddcommon.MODEL_VOS + ["DD/Build.vo", "DD/Apply.vo", "DD/Quant.vo"]
+C04M_VOS = ddcommon.MODEL_VOS + ["DD/Build.vo", "DD/Apply.vo", "DD/Quant.vo", "DD/ApplyBcdd.vo", "DD/QuantBcdd.vo"]
 
 
 def build(ctx):
@@ -139,7 +139,7 @@ def run(ctx):
     cases = gen_cases(ctx)
     # pass 1 (proof gate + model replay): the BDD cases through the extracted models of coq/DD/Quant.v;
     # violations are reported here, the evidence is written by pass 2
-    bdd = [c for c in cases if " kind=bdd " in c[0] + " "]
+    bdd = [c for c in cases if " kind=bdd " in c[0] + " " or " kind=bcdd " in c[0] + " "]
     with _c04m_driver():
         ok_m, bad_m = ddcommon.run_dd(ctx, ["C04"], bdd, rule="", allowed_axioms=ALLOWED_AXIOMS, drv_args=["--c04m"],
                                       write_ev=False, debug_cases=None, sig_extra="bdd-model")
